@@ -513,3 +513,17 @@ Proof.
   - vm_compute. reflexivity.
   - eexists. vm_compute. reflexivity.
 Qed.
+
+(* ------------------------------------------------------------------ histories
+   The model of sms.Unmarshal / sms.Marshal is a FUNCTION of the octets: it has no state, so decoding a
+   history of TPDUs in one process is [map] and the result for a TPDU cannot depend on what was decoded before.
+   This lemma is therefore true by construction; its content is the tie: the harness decodes ordered histories in
+   fresh processes and demands of the implementation what the lemma says of the model. *)
+Definition run_history (h : list bytes) : list (outcome tpdu * outcome bytes) :=
+  map (fun x => (sms_unmarshal x, sms_remarshal x)) h.
+Lemma history_independent (before after : list bytes) (x : bytes) :
+  nth_error (run_history (before ++ x :: after)) (List.length before) = Some (sms_unmarshal x, sms_remarshal x).
+Proof.
+  unfold run_history. rewrite map_app. cbn [map].
+  rewrite nth_error_app2 by (rewrite map_length; lia). rewrite map_length, Nat.sub_diag. reflexivity.
+Qed.
